@@ -189,6 +189,17 @@ func Load(repo, goarch string) (*Ctx, error) {
 				c.ExpandNotes = append(c.ExpandNotes, "rename normalisation abandoned (the renamed program does not type-check: "+msg+")")
 				break
 			}
+			if round > 0 {
+				// a reference name given back to a declaration must not be captured by a local variable of that name
+				touched := map[string]bool{}
+				for k := range ov {
+					touched[k] = true
+				}
+				if !sameShapes(bindingShape(mod, pkgs[0].Fset, touched), bindingShape(mod2, pkgs2[0].Fset, touched)) {
+					c.ExpandNotes = append(c.ExpandNotes, "rename normalisation abandoned (a reference name would be captured by a local variable)")
+					break
+				}
+			}
 			pkgs, by, mod, overlay = pkgs2, by2, mod2, next
 			c.ExpandNotes = append(c.ExpandNotes, notes...)
 		}
@@ -204,8 +215,18 @@ func Load(repo, goarch string) (*Ctx, error) {
 			cfg2 := &packages.Config{Mode: packages.LoadAllSyntax, Dir: repo, Env: env, Tests: false, Overlay: next}
 			if pkgs2, err2 := packages.Load(cfg2, "./..."); err2 == nil && len(pkgs2) > 0 {
 				if by2, mod2, errs2 := collect(pkgs2); len(errs2) == 0 && len(mod2) > 0 {
-					pkgs, by, mod, overlay = pkgs2, by2, mod2, next
-					c.ExpandNotes = append(c.ExpandNotes, notes...)
+					// the renaming must not change which variable any identifier denotes (a use of an outer variable captured
+					// by a renamed inner one would type-check and mean something else)
+					touched := map[string]bool{}
+					for k := range ov {
+						touched[k] = true
+					}
+					if sameShapes(bindingShape(mod, pkgs[0].Fset, touched), bindingShape(mod2, pkgs2[0].Fset, touched)) {
+						pkgs, by, mod, overlay = pkgs2, by2, mod2, next
+						c.ExpandNotes = append(c.ExpandNotes, notes...)
+					} else {
+						c.ExpandNotes = append(c.ExpandNotes, "normalisation of renamed locals abandoned (a reference name would capture another variable)")
+					}
 				} else if len(errs2) > 0 {
 					c.ExpandNotes = append(c.ExpandNotes, "normalisation of renamed locals abandoned (does not type-check: "+errs2[0]+")")
 				}
